@@ -22,6 +22,7 @@ import (
 	"net/url"
 	"os"
 	"path/filepath"
+	"runtime/debug"
 	"strings"
 	"time"
 
@@ -38,6 +39,7 @@ import (
 	"github.com/sassoftware/relic/v8/signers/sigerrors"
 	_ "github.com/sassoftware/relic/v8/verifharness/allsigners"
 	"github.com/sassoftware/relic/v8/verifharness/core"
+	"github.com/sassoftware/relic/v8/verifharness/srvkit"
 )
 
 type rec = map[string]interface{}
@@ -51,10 +53,48 @@ func repoDir() string {
 	return "/repo"
 }
 
+// guard runs f; a panic is reported as an error naming the innermost frame of the stack and the innermost relic frame
 func guard(f func() error) (err error, pan bool) {
 	defer func() {
 		if r := recover(); r != nil {
-			err, pan = fmt.Errorf("panic: %v", r), true
+			lines := strings.Split(string(debug.Stack()), "\n")
+			frame := func(i int) string {
+				fn := strings.TrimSpace(lines[i])
+				if k := strings.LastIndex(fn, "("); k > 0 {
+					fn = fn[:k]
+				}
+				loc := strings.TrimSpace(lines[i+1])
+				if k := strings.Index(loc, " +0x"); k > 0 {
+					loc = loc[:k]
+				}
+				for _, cutAt := range []string{"/pkg/mod/", "/relic/", "/mut-fmtcat/"} {
+					if k := strings.LastIndex(loc, cutAt); k >= 0 {
+						loc = loc[k+len(cutAt):]
+						break
+					}
+				}
+				return fn[strings.LastIndex(fn, "/")+1:] + " " + loc
+			}
+			inner, relic := "", ""
+			seenPanic := false
+			for i := 0; i+1 < len(lines); i++ {
+				l := lines[i]
+				if strings.HasPrefix(l, "panic(") {
+					seenPanic = true
+					continue
+				}
+				if !seenPanic || strings.HasPrefix(l, "\t") || strings.HasPrefix(l, "runtime.") || strings.HasPrefix(l, "goroutine") || l == "" {
+					continue
+				}
+				if inner == "" {
+					inner = frame(i)
+				}
+				if relic == "" && strings.Contains(l, "sassoftware/relic/v8/") && !strings.Contains(l, "verifharness") {
+					relic = frame(i)
+					break
+				}
+			}
+			err, pan = fmt.Errorf("panic: %v [innermost: %s; relic: %s]", r, inner, relic), true
 		}
 	}()
 	return f(), false
@@ -263,7 +303,7 @@ func (d *drv) signFile(modName string, in []byte, k *keyT, hname string, q url.V
 
 type vres struct {
 	St, Err, Hash, Leaf, Chain, Package, Signer string
-	NSigs                                        int
+	NSigs                                       int
 }
 
 func (v vres) rec() rec {
@@ -468,7 +508,39 @@ func (d *drv) runCat() {
 		}
 		o["rounds"] = rounds
 		d.c.Emit(o)
+		if len(rounds) > 0 && rounds[0]["st"] == "ok" && (strings.HasPrefix(cc.name, "fixture:hyperv.cat") && !strings.Contains(cc.name, ":cut") || cc.name == "gen:unsigned" || strings.HasPrefix(cc.name, "gen:ctl1000")) {
+			kh := strings.Split(cc.plan[0], "/")
+			base, _ := hex.DecodeString(rounds[0]["out"].(string))
+			d.tamper("cat", cc.name, base, func(f []byte) vres {
+				return d.verifyFile("cat", f, signers.VerifyOpts{TrustedPool: d.keys[kh[0]].pool}, d.keys[kh[0]].pool)
+			})
+		}
 	}
+}
+
+// tamper flips single bits of a signed artefact (positions spread over the whole file plus a dense sweep of the last 600 bytes, where the
+// signature values live) and records what the verifier says
+func (d *drv) tamper(format, name string, base []byte, verify func([]byte) vres) {
+	n := len(base)
+	var pos []int
+	for i := 0; i < 40; i++ {
+		pos = append(pos, (i*n)/40+d.r.Intn(n/40+1))
+	}
+	for i := 0; i < 24; i++ {
+		pos = append(pos, n-1-d.r.Intn(600))
+	}
+	var outs []rec
+	for _, p := range pos {
+		if p < 0 || p >= n {
+			continue
+		}
+		m := append([]byte{}, base...)
+		bit := byte(1 << uint(d.r.Intn(8)))
+		m[p] ^= bit
+		v := verify(m)
+		outs = append(outs, rec{"pos": p, "bit": int(bit), "st": v.St, "err": v.Err, "chain": v.Chain})
+	}
+	d.c.Emit(rec{"t": "tamper", "fmt": format, "name": name, "base": hx(base), "flips": outs})
 }
 
 // ---------------------------------------------------------------- PKCS#7 over arbitrary content
@@ -565,7 +637,7 @@ func (d *drv) runPkcs() {
 				i++
 			}
 		}
-		d.onePkcs(p7Case{name, content, true, i%2 == 0, "rsa2048", "sha256", "digest"})
+		d.onePkcs(p7Case{name, content, true, (i/4)%2 == 0, "rsa2048", "sha256", "digest"})
 	}
 	// SetDetachedContent with a digest of the wrong size
 	b := pkcs7.NewBuilder(d.keys["rsa2048"].cert.Signer(), d.keys["rsa2048"].cert.Chain(), crypto.SHA256)
@@ -887,8 +959,55 @@ func (d *drv) runRpm() {
 		}
 		o["rounds"] = rounds
 		d.c.Emit(o)
+		if len(rounds) > 0 && rounds[0]["st"] == "ok" && (rc.name == "fixture:rocky" || rc.name == "gen:p1000:r-1:v0" || rc.name == "gen:p9:r5:v1") {
+			base, _ := hex.DecodeString(rounds[0]["out"].(string))
+			d.tamper("rpm", rc.name, base, func(f []byte) vres { return d.rpmVerify(f, true, false) })
+		}
 	}
 	_ = pgptools.ErrNoKey(0)
+}
+
+// ---------------------------------------------------------------- through the server's /sign endpoint
+func (d *drv) runServer() {
+	kit, err := srvkit.New(filepath.Join(d.dir, "srv"), srvkit.Options{})
+	if err != nil {
+		d.c.Emit(rec{"t": "srv", "what": "setup", "err": err.Error()})
+		return
+	}
+	pk := filepath.Join(repoDir(), "functest/packages")
+	cat, _ := os.ReadFile(filepath.Join(pk, "hyperv.cat"))
+	rpmf, _ := os.ReadFile(filepath.Join(pk, "rocky-basesystem-11-13.el9.noarch.rpm"))
+	manifest := []byte(`{"schemaVersion":2,"mediaType":"application/vnd.oci.image.manifest.v1+json","layers":[]}`)
+	noName := rpmSpec{Name: "x", Version: "1", Release: "1", Arch: "noarch", Epoch: -1, NoName: true, HdrSHA256: true, MD5: true, PayloadDigest: true, Reserved: -1, SigRegion: true, GenRegion: true, Payload: []byte("abc")}.build()
+	cases := []struct {
+		name, sigtype, file string
+		body                []byte
+	}{
+		{"cat", "cat", "hyperv.cat", cat}, {"rpm", "rpm", "x.rpm", rpmf}, {"cosign", "cosign", "manifest.json", manifest},
+		{"pkcs7-verify-only-module", "pkcs7", "x.p7s", cat}, {"cat-garbage", "cat", "x.cat", []byte("not a catalog")},
+		{"rpm-garbage", "rpm", "x.rpm", []byte("not an rpm")}, {"rpm-no-name", "rpm", "x.rpm", noName}, {"cosign-garbage", "cosign", "m.json", []byte("{")},
+	}
+	for _, c := range cases {
+		var res srvkit.Result
+		err, pan := guard(func() error {
+			res = kit.Sign("alice", "rsa2048", c.sigtype, c.file, url.Values{}, bytes.NewReader(c.body))
+			return nil
+		})
+		o := rec{"t": "srv", "name": c.name, "sigtype": c.sigtype, "in": hx(c.body), "status": res.Status, "ctype": res.ContentType, "st": st(err, pan)}
+		if err != nil {
+			o["err"] = cut(err.Error())
+		}
+		if res.Status == 200 {
+			o["out"] = hx(res.Body)
+			if c.name == "cat" {
+				out, _, _, e2, _, _ := d.signFile("cat", c.body, d.keys["rsa2048"], "sha256", nil)
+				o["equal_standalone"] = e2 == nil && bytes.Equal(out, res.Body)
+			}
+		} else {
+			o["body"] = cut(string(res.Body))
+		}
+		d.c.Emit(o)
+	}
 }
 
 // ---------------------------------------------------------------- magic
@@ -952,6 +1071,9 @@ func init() {
 		}
 		if all || parts["rpm"] {
 			d.runRpm()
+		}
+		if all || parts["srv"] {
+			d.runServer()
 		}
 		return nil
 	})
